@@ -254,6 +254,21 @@ def gen_c09(tier, rng):
                     ("2020", "%Y%"), ("2020", "%Y%E"), ("2020x", "%Y%Ex"), ("1.5", "%E*S"), ("1.", "%E*S"), (".5", "%E*f"), ("5", "%E3f"), ("x", "%E*f")]:
         for zid in (ids[0], ids[-1]):
             cases.append("parse %s %s %s" % (zid, hx(fm), hx(inp)))
+    # instants at and just beyond both ends of the range, written with an explicit offset, parsed in
+    # zones whose own offset differs from UTC (the supplied zone must not matter when an offset is given)
+    zlim = [gen_zone.named(gen_zone.fixed_name(o)) for o in (3600, -28800, 50400, -3600, 86399, -86399)] + ids[:4] + [fixed_ids()[-1]]
+    for base, sgn in ((I64_MAX, 1), (I64_MIN, -1)):
+        for delta in [0, 1, 2, 59, 60, 3599, 3600, 3601, 28799, 28800, 28801, 50399, 50400, 50401, 86399, 86400, 86401, 172800] + [rng.randint(1, 90000) for _ in range(6)]:
+            for side in (1, -1):
+                t = base + sgn * side * delta
+                for off in (0, 3600, -28800, 50400, -45296):
+                    cs = civil_of_seconds(t + off)
+                    if not (I64_MIN <= cs[0] <= I64_MAX):
+                        continue
+                    a = abs(off)
+                    txt = "%d-%02d-%02dT%02d:%02d:%02d%s%02d:%02d:%02d" % (cs[0], cs[1], cs[2], cs[3], cs[4], cs[5], "-" if off < 0 else "+", a // 3600, a // 60 % 60, a % 60)
+                    exp = "EXP %d 0" % t if I64_MIN <= t <= I64_MAX else "REJ"
+                    cases.append("parse %s %s %s %s" % (rng.choice(zlim), hx("%Y-%m-%dT%H:%M:%S%E*z"), hx(txt), exp))
     # week numbers with weekdays: %U/%W with %w/%u (expected instant = midnight of that date in UTC)
     import datetime
     utcid = fixed_ids()[-1]
